@@ -165,6 +165,18 @@ func decodeLogEntry(r io.Reader) (LogEntry, error) {
 	return entry, nil
 }
 
+// countingReader counts the bytes that have been read through it.
+type countingReader struct {
+	reader io.Reader
+	count  int64
+}
+
+func (c *countingReader) Read(p []byte) (int, error) {
+	n, err := c.reader.Read(p)
+	c.count += int64(n)
+	return n, err
+}
+
 // persistentLog implements the Log interface. Not concurrent safe.
 type persistentLog struct {
 	// The in-memory log entries of the log.
@@ -207,17 +219,38 @@ func (l *persistentLog) Open() error {
 }
 
 func (l *persistentLog) Replay() error {
-	reader := bufio.NewReader(l.file)
+	reader := &countingReader{reader: bufio.NewReader(l.file)}
+
+	// The offset just past the last complete record.
+	var validSize int64
 
 	for {
 		entry, err := decodeLogEntry(reader)
-		if errors.Is(err, io.EOF) {
+		if errors.Is(err, io.EOF) || errors.Is(err, io.ErrUnexpectedEOF) {
+			// Either the clean end of the log or a record that was only
+			// partially written before a crash. A partial record was never
+			// acknowledged and is not part of the log.
 			break
 		}
 		if err != nil {
 			return fmt.Errorf("could not decode log entry: %w", err)
 		}
+		validSize = reader.count
 		l.entries = append(l.entries, &entry)
+	}
+
+	// Remove a partially written record so that the next append starts
+	// at a record boundary.
+	if reader.count > validSize {
+		if err := l.file.Truncate(validSize); err != nil {
+			return fmt.Errorf("could not truncate log file: %w", err)
+		}
+		if err := l.file.Sync(); err != nil {
+			return fmt.Errorf("could not sync log file: %w", err)
+		}
+	}
+	if _, err := l.file.Seek(validSize, io.SeekStart); err != nil {
+		return fmt.Errorf("could not seek log file: %w", err)
 	}
 
 	// The log must always contain at least one entry.
